@@ -1042,7 +1042,7 @@ func (b *BootGuard) CreateIBBSegments(seElement uint8, flags uint16, imagepath s
 		if err != nil {
 			return err
 		}
-		var ibbCount uint8
+		var ibbCount int
 		for _, entry := range fitentries {
 			if entry.GetEntryBase().Headers.Type() == fit.EntryTypeBIOSStartupModuleEntry {
 				ibbCount++
@@ -1062,7 +1062,7 @@ func (b *BootGuard) CreateIBBSegments(seElement uint8, flags uint16, imagepath s
 		// From here we consider it is a coreboot image
 		flashBase := consts.BasePhysAddr - stat.Size()
 		cbfsbaseaddr := img.Area.Offset
-		var ibbCount uint8
+		var ibbCount int
 		for _, seg := range img.Segs {
 			switch seg.GetFile().Name {
 			case
